@@ -45,6 +45,24 @@ macro_rules! dispatch {
     };
 }
 
+/// Entry of the coverage-guided engine (tests/lcvfuzz.rs): LCV_FUZZ_PROP selects the property, LCV_FUZZ_TIER the size class.
+pub fn fuzz_entry(data: &[u8]) {
+    use std::sync::OnceLock;
+    static SEL: OnceLock<(String, Tier)> = OnceLock::new();
+    let (id, tier) = SEL.get_or_init(|| {
+        pbt::install_quiet_panic_hook();
+        let id = std::env::var("LCV_FUZZ_PROP").unwrap_or_else(|_| "C10".into());
+        let tier = if std::env::var("LCV_FUZZ_TIER").ok().as_deref() == Some("thorough") { Tier::Thorough } else { Tier::Quick };
+        (id, tier)
+    });
+    dispatch!(id.as_str(), fuzz_one, *tier, data)
+}
+
+pub fn fuzz_flush_entry() {
+    let id = std::env::var("LCV_FUZZ_PROP").unwrap_or_else(|_| "C10".into());
+    dispatch!(id.as_str(), fuzz_flush, )
+}
+
 pub fn main() {
     let args: Vec<String> = std::env::args().collect();
     pbt::install_quiet_panic_hook();
@@ -75,8 +93,16 @@ pub fn main() {
                 std::process::exit(1);
             }
         }
+        Some("fuzzbytes") => {
+            // runs one libFuzzer input (artifact or corpus file) through the coverage-guided entry without libFuzzer
+            std::env::set_var("LCV_FUZZ_PROP", &args[2]);
+            let data = std::fs::read(&args[3]).expect("input file");
+            fuzz_entry(&data);
+            fuzz_flush_entry();
+            println!("ok");
+        }
         _ => {
-            eprintln!("usage: lcv run <Cxx> ... | lcv replay <Cxx> <file>");
+            eprintln!("usage: lcv run <Cxx> ... | lcv replay <Cxx> <file> | lcv fuzzbytes <Cxx> <libfuzzer input>");
             std::process::exit(2);
         }
     }
